@@ -80,6 +80,11 @@ func TestCheck(t *testing.T) {
 		concurrentRound(r, stressRoundCfg{Round: i, Readers: 2 + rng.IntN(5), OpsEach: 3 + rng.IntN(6), InjectPct: []int{10, 30, 60}[rng.IntN(3)], Procs: []int{2, 4, 16}[rng.IntN(3)]})
 	}
 
+	r.Floor("invalid-timeout-rejected", 4)
+	for i := 0; i < r.Pick(8, 40); i++ {
+		invalidTimeoutCase(r, i)
+	}
+
 	nCtx := r.Pick(4000, 120000)
 	nTimer := r.Pick(1600, 50000)
 	nExec := r.Pick(240, 5000)
